@@ -271,7 +271,7 @@ func c15Run(c *Ctx) {
 func init() {
 	register(&CheckDef{
 		ID:   "C15",
-		Rule: "programs printing: ~60 boundary doubles (+-0, subnormals, 2^53+-1, powers of ten around the exponent switch, 15-17 digit values) and seeded random doubles by bit pattern, each as `দেখাও v; দেখাও \"\"+v; দেখাও v+\"\";` triples (60 per program); non-finite values and results of every bitwise operator and numeric built-in; 32 strings (Latin, Bangla, combining marks, every Bangla code point with a canonical decomposition in composed and decomposed form, the keywords containing U+09DF, numeral-looking strings) x 12 placements (alone, concatenated, array element, property from literal and from assignment, element store, nested, function result, এড result, value listing); nil/booleans/functions/containers nested to depth 3; random nested containers. Monitors: read-back equality and shortest-digits for every numeral, integer form below one million, valid UTF-8, NFC normal form, canonical equivalence with the model's string, exactly one newline per print, all elements in order / all properties, and line-triple equality (the text + splices equals what দেখাও prints). Non-trivial = distinct decided program.",
+		Rule: "programs printing: ~60 boundary doubles (+-0, subnormals, 2^53+-1, powers of ten around the exponent switch, 15-17 digit values) and seeded random doubles by bit pattern, each as `দেখাও v; দেখাও \"\"+v; দেখাও v+\"\";` triples (60 per program); non-finite values and results of every bitwise operator and numeric built-in; 69 strings (incl. zero-width joiners / non-joiners and other invisible or shaping characters; Latin, Bangla, combining marks, every Bangla code point with a canonical decomposition in composed and decomposed form, the keywords containing U+09DF, numeral-looking strings) x 12 placements (alone, concatenated, array element, property from literal and from assignment, element store, nested, function result, এড result, value listing); nil/booleans/functions/containers nested to depth 3; random nested containers. Monitors: read-back equality and shortest-digits for every numeral, integer form below one million, valid UTF-8, NFC normal form, canonical equivalence with the model's string, exactly one newline per print, all elements in order / all properties, and line-triple equality (the text + splices equals what দেখাও prints). Non-trivial = distinct decided program.",
 		Assumptions: []string{"strconv.ParseFloat / FormatFloat in the harness are correct (cross-checked by C10's big-rational oracle)", "the spelling of +-Inf/NaN, of nil inside a container and container punctuation are not pinned"},
 		Run:         c15Run,
 		Judge:       c15Judge,
